@@ -493,15 +493,20 @@ func expectOf(a arg, s string) (string, []string) {
 	return "ENone", []string{"raw"}
 }
 
-func clock(f func()) (lo, hi int64) {
-	for try := 0; ; try++ {
+// clock runs f between two readings of the wall clock and repeats until the readings are at most
+// 2 s apart (and ordered); a run on which that never happens is an infrastructure error, not a case
+func clock(f func()) (lo, hi int64, err error) {
+	const tries = 200
+	for try := 0; try < tries; try++ {
 		lo = time.Now().Unix()
 		f()
 		hi = time.Now().Unix()
-		if (lo <= hi && hi-lo <= 2) || try >= 5 {
-			return
+		if lo <= hi && hi-lo <= 2 {
+			return lo, hi, nil
 		}
+		time.Sleep(10 * time.Millisecond)
 	}
+	return lo, hi, fmt.Errorf("clock readings around the call never came within 2 s of each other in %d tries (last: %d .. %d): machine stalled or clock stepping", tries, lo, hi)
 }
 
 func resZ(panicked bool, err error, v string) (string, string) {
@@ -528,9 +533,12 @@ func run(raw json.RawMessage, o vhlib.Opts) (*vhlib.Case, error) {
 		var err error
 		var panicked bool
 		var pmsg string
-		lo, hi := clock(func() {
+		lo, hi, cerr := clock(func() {
 			panicked, pmsg = vhlib.Recover(func() { v, err = query.ParseTimeArgument(sa) })
 		})
+		if cerr != nil {
+			return nil, cerr
+		}
 		obs, cls := resZ(panicked, err, vhlib.CoqZ(v))
 		c.Tags = append(append([]string{"arg"}, ta...), cls)
 		c.Nontrivial = in.A.K != "raw" || cls == "ok"
@@ -554,9 +562,12 @@ func run(raw json.RawMessage, o vhlib.Opts) (*vhlib.Case, error) {
 	var err error
 	var panicked bool
 	var pmsg string
-	lo, hi := clock(func() {
+	lo, hi, cerr := clock(func() {
 		panicked, pmsg = vhlib.Recover(func() { f, l, err = query.ParseTimeRange(sa, sb) })
 	})
+	if cerr != nil {
+		return nil, cerr
+	}
 	obs, cls := resZ(panicked, err, vhlib.CoqPair(vhlib.CoqZ(f), vhlib.CoqZ(l)))
 	c.Tags = []string{"range", "range-" + cls, "first-" + ta[0], "last-" + tb[0]}
 	c.Nontrivial = true
